@@ -7,7 +7,7 @@ M = [
  ("M2 mysql renameTable: reverse statement unqualified", "sql/mysql/migrate_oss.go",
   'Reverse: s.Build("RENAME TABLE").Table(c.To).P("TO").Table(c.From).String(),', 'Reverse: s.Build("RENAME TABLE").Ident(c.To.Name).P("TO").Table(c.From).String(),'),
  ("M3 pg addIndexes: DROP INDEX without schemaPrefix", "sql/postgres/migrate_oss.go",
-  "\t\t\t\tif t.Schema != nil {\n\t\t\t\t\tb.WriteString(s.schemaPrefix(t.Schema))", "\t\t\t\tif t.Schema != nil && false {\n\t\t\t\t\tb.WriteString(s.schemaPrefix(t.Schema))"),
+  "\t\t\t\tb.WriteString(s.schemaPrefix(t.Schema))\n\t\t\t\tb.Ident(idx.Name)", "\t\t\t\tb.Ident(idx.Name)"),
  ("M4 CheckChangesScope ignores DropSchema", "sql/internal/sqlx/plan.go",
   "case *schema.AddSchema, *schema.DropSchema:\n\t\t\treturn fmt.Errorf(\"%T is not allowed when migration plan is scoped to one schema\", c)", "case *schema.AddSchema:\n\t\t\treturn fmt.Errorf(\"%T is not allowed when migration plan is scoped to one schema\", c)"),
  ("M5 mayQualify: qualifier \"\" treated as unset", "sql/internal/sqlx/sqlx.go",
@@ -29,13 +29,21 @@ M = [
  ("M13 pg createDropSeq: OWNED BY without schemaPrefix", "sql/postgres/migrate_oss.go",
   'P(fmt.Sprintf(`%s%q.%q`, s.schemaPrefix(t.Schema), t.Name, c.To.Name)).', 'P(fmt.Sprintf(`%q.%q`, t.Name, c.To.Name)).'),
  ("M14 CheckChangesScope: DropTable not scoped", "sql/internal/sqlx/plan.go",
-  "\t\tcase *schema.DropTable:\n\t\t\tt = c.T\n\t\tdefault:", "\t\tdefault:"),
+  "\t\tcase *schema.DropTable:\n\t\t\tt = c.T\n\t\tcase *schema.RenameTable:", "\t\tcase *schema.RenameTable:"),
  ("M15 mysql alterTable head: Table(t) instead of SchemaResource (harmless refactor)", "sql/mysql/migrate_oss.go",
   's.Build("ALTER TABLE").SchemaResource(t.Schema, name)', 's.Build("ALTER TABLE").Table(&schema.Table{Name: name, Schema: t.Schema})'),
  ("M16 pg RenameIndex: reverse statement unqualified", "sql/postgres/migrate_oss.go",
   'Reverse: s.Build("ALTER INDEX").SchemaResource(modify.T.Schema, change.To.Name)', 'Reverse: s.Build("ALTER INDEX").Ident(change.To.Name)'),
  ("M17 Builder.Clone keeps... mayQualify custom qualifier written twice? no: Ident(*b.Schema) dropped rewrite '.'", "sql/internal/sqlx/sqlx.go",
   "\t\t\tb.Ident(*b.Schema)\n\t\t\tb.rewriteLastByte('.')", "\t\t\tb.Ident(*b.Schema)"),
+ ("M19 revert repair: enum arm without the t.Schema.Name guard", "sql/internal/sqlx/plan.go",
+  'e.Schema.Name != "" && t.Schema != nil && t.Schema.Name != "" {', 'e.Schema.Name != "" && t.Schema != nil {'),
+ ("M20 RenameTable scope: only the From end is recorded", "sql/internal/sqlx/plan.go",
+  "for _, t := range []*schema.Table{c.From, c.To} {", "for _, t := range []*schema.Table{c.From} {"),
+ ("M21 revert repair: RenameObject reverse through Ident", "sql/postgres/migrate_oss.go",
+  'Reverse: s.Build("ALTER TYPE").P(s.enumIdent(e2), "RENAME TO").Ident(e1.T).String(),', 'Reverse: s.Build("ALTER TYPE").Ident(e2.T).P("RENAME TO").Ident(e1.T).String(),'),
+ ("M22 revert repair: DROP INDEX prefix only when the table has a Schema", "sql/postgres/migrate_oss.go",
+  "\t\t\t\tb.WriteString(s.schemaPrefix(t.Schema))\n\t\t\t\tb.Ident(idx.Name)", "\t\t\t\tif t.Schema != nil {\n\t\t\t\t\tb.WriteString(s.schemaPrefix(t.Schema))\n\t\t\t\t}\n\t\t\t\tb.Ident(idx.Name)"),
  ("M18 CheckChangesScope: ModifySchema allowed in every mode", "sql/internal/sqlx/plan.go",
   "case !opts.Mode.Is(migrate.PlanModeInPlace):", "case false:"),
 ]
@@ -78,7 +86,7 @@ for name, f, old, new in M:
                     pp=l.split('\t')
                     if len(pp)>1: cls[pp[1]]+=1
             except FileNotFoundError: pass
-            known={'scope-accepts-cross-schema-enum','scope-accepts-cross-schema-other','scope-accepts-cross-schema-enum-and-other','scope-rejects-single-schema-empty-table-schema','plan-accepts-cross-schema-enum','plan-accepts-cross-schema-other'}
+            known={'scope-accepts-cross-schema-enum','scope-accepts-cross-schema-other','scope-accepts-cross-schema-enum-and-other','plan-accepts-cross-schema-enum','plan-accepts-cross-schema-other'}
             new={k:v for k,v in cls.items() if k not in known}
             if new: det.append('%s:oracle=%s'%(st,dict(new)))
         nf='no-failing-input-found' if any('no-failing-input-found' in v for v in viol) else ''
